@@ -327,6 +327,8 @@ class Sim:
         self.nactions = 0
         self.trace: list = []         # action log
         self.msg_log: list = []       # (sender, receiver, msg name, payload summary)
+        self.task_msgs_delivered: dict = collections.Counter()
+        self.waiting_snaps: dict = collections.defaultdict(collections.deque)
         self.dead: set = set()
         self.nodes: dict = {}         # name -> object
         self.links: dict = {}         # (a, b) -> FakeConn owned by a towards b
@@ -481,6 +483,11 @@ class Sim:
         except Exception:
             name, payload = '?', None
         self.msg_log.append((conn.owner, conn.peer, name, payload))
+        if name == 'WAITING' and conn.owner in self.workers:
+            # ground truth for the boss's idle belief: how many task messages
+            # this worker had taken in when it declared itself idle
+            self.waiting_snaps[conn.owner].append(
+                self.task_msgs_delivered[conn.owner])
 
     def alive(self, name):
         return name not in self.dead
@@ -499,8 +506,12 @@ class Sim:
             elif ch.writer_closed and not ch.eof_delivered:
                 acts.append(('recv', a, b))
         for name, w in self.workers.items():
-            if not self.alive(name) or not w._running:
+            if not self.alive(name):
                 continue
+            # a worker whose _running flag was cleared without the process
+            # being killed still has a main thread: blocked for ever if it
+            # waits on an empty queue, otherwise it finishes its step and
+            # leaves the loop (the process then ends, see _worker_step)
             q = w._ready_task_ids
             if not q.parked or q.q or w._delayed_tasks:
                 acts.append(('step', name))
@@ -594,6 +605,7 @@ class Sim:
                     (len(self.trace), name, tuple(mobj[1])),
                 )
         conn._deliver = item
+        n_cancel = len(self.cancel_handled)
         try:
             w.recv_incoming()
         except StopLoop:
@@ -601,12 +613,18 @@ class Sim:
         except ProcessExit:
             self.trace[-1] = self.trace[-1] + ('exit',)
             self.kill(name)
+            return
         except LockBusy:
             # incoming thread would block on the mutex held by the main
             # thread: the message stays undelivered
             conn._deliver = None
             conn.inn.q.appendleft(item[1])
             self.trace[-1] = self.trace[-1] + ('lock-busy',)
+            if item[0] == 'msg' and mname == 'CANCEL':
+                del self.cancel_handled[n_cancel - 1:]
+            return
+        if item[0] == 'msg' and mname in ('SUBMIT', 'SUBMIT_BATCH'):
+            self.task_msgs_delivered[name] += 1
 
     def _node_recv(self, name, conn, item, peer):
         node = self.nodes[name]
@@ -665,6 +683,9 @@ class Sim:
                 w._loop()
             else:
                 self._traced_step(w, name, plan)
+            # _loop returned: the main thread left the event loop and the
+            # worker process ends
+            self.kill(name)
         except (Yield, WouldBlock):
             pass
         except ProcessExit:
